@@ -32,11 +32,16 @@ const ZXST_HEADER_SIZE: usize = 8; // The zx-state header
 const ZXST_BLOCK_HEADER_SIZE: usize = 8; // The header for each block
 
 // Process Creator (CRTR) block
-fn process_crtr_block<H: Host>(_: &mut Emulator<H>, block_data: &[u8]) {
-    let crtr_name_bytes = &block_data[0..33];
-    let _ = from_utf8(crtr_name_bytes).unwrap();
-    let _ = u16::from_le_bytes([block_data[33], block_data[34]]);
-    let _ = u16::from_le_bytes([block_data[35], block_data[36]]);
+fn process_crtr_block<H: Host>(_: &mut Emulator<H>, block_data: &[u8]) -> Result<()> {
+    // szCreator[32], chMajorVersion (u16), chMinorVersion (u16), optional data
+    if block_data.len() < 36 {
+        return Err(SnapshotLoadError::InvalidSZXFile.into());
+    }
+    // Creator name is informational and may use any 8-bit encoding
+    let _ = from_utf8(&block_data[0..32]);
+    let _ = u16::from_le_bytes([block_data[32], block_data[33]]);
+    let _ = u16::from_le_bytes([block_data[34], block_data[35]]);
+    Ok(())
 }
 
 // Process ZXSTZ80REGS (Z80R) block
@@ -379,7 +384,7 @@ where
 
         match id_str.as_str() {
             "CRTR" => {
-                process_crtr_block(emulator, &block_data);
+                process_crtr_block(emulator, &block_data)?;
             }
             "Z80R" => {
                 process_z80r_block(emulator, &block_data);
